@@ -188,7 +188,8 @@ func ParseRtmpUrl(rawUrl string) (ctx UrlContext, err error) {
 	// LastItemOfPath:------------------------------------------> lss_7
 	// RawQuery:vhost=thirdVhost?token=88F4/lss_7---------------> 空
 	//
-	if strings.Count(ctx.PathWithRawQuery, "?") > 1 {
+	// 注意，只有一级路径时（比如`/a?x?y`）最后一个`/`就是开头的那个，不属于这种特殊case，否则下面的切片会越界
+	if strings.Count(ctx.PathWithRawQuery, "?") > 1 && strings.LastIndexByte(ctx.PathWithRawQuery, '/') > 0 {
 		index := strings.LastIndexByte(ctx.PathWithRawQuery, '/')
 		ctx.Path = ctx.PathWithRawQuery
 		ctx.PathWithoutLastItem = ctx.PathWithRawQuery[1:index]
